@@ -278,12 +278,45 @@ class C13(Check):
                                 + pr.handler_errors[0])
             else:
                 res.probe("killed_before_exit")
+            rerun_ok = False
+            if scn["kill"] and not res.violations:
+                # judge what the killed run left behind (below), then run the
+                # command again to completion: a conversion that exits 0 must
+                # leave a correct destination whatever an earlier, killed
+                # attempt left there
+                left = dsutil.read_dataset(
+                    DST, sinfo if scn["copy_info"] else dinfo)
+                for (key, co), arr in sorted(model.items(),
+                                             key=lambda kv: kv[0]):
+                    g = left[(key, co)]
+                    want = arr.astype(np.dtype(
+                        (sinfo if scn["copy_info"] else dinfo)["data_type"]))
+                    if g[0] == "ok" and not (g[1].shape == want.shape
+                                             and np.array_equal(g[1], want)):
+                        res.violate("C13/values",
+                                    f"{where}: after the kill, destination "
+                                    f"chunk {key} {co} decodes to wrong "
+                                    "values",
+                                    key=f"C13/values-after-kill/"
+                                    f"{scn['dst_kind']}")
+                        break
+                    res.probe("kill_left_" + g[0])
+                with serving(server):
+                    pr = simproc.run_process(convert_chunks.main, argv,
+                                             fs=fs)
+                log.add("RERUN", pr.status, pr.exc, pr.handler_errors)
+                if pr.status == 0 and not pr.handler_errors:
+                    rerun_ok = True
+                    res.probe("rerun_after_kill_succeeded")
+                else:
+                    res.probe("rerun_after_kill_failed_" + str(
+                        pr.exc or pr.handler_errors))
             if fs.tree_hash(SRC) != src_hash:
                 res.violate("C13/source-changed", f"{where}: the source "
                             "tree changed")
             # ---- a new process reads the destination ------------------------
             compared = 0
-            if not res.violations:
+            if not res.violations and (not scn["kill"] or rerun_ok):
                 exp_info = sinfo if scn["copy_info"] else dinfo
                 got = dsutil.read_dataset(DST, exp_info)
                 want_dt = np.dtype(exp_info["data_type"])
@@ -302,7 +335,7 @@ class C13(Check):
                                 key=f"C13/values/{scn['dst_kind']}/"
                                 f"{scn['denc']}")
                             break
-                    elif not scn["kill"]:
+                    elif not scn["kill"] or rerun_ok:
                         res.violate(
                             "C13/dest-unreadable",
                             f"{where}: destination chunk {key} {co} is "
